@@ -284,6 +284,14 @@ type c20Builder struct {
 	cur    int64 // next free timestamp offset
 	bytes  int
 	maxGap int64
+	// aims are seeks laid out on purpose: the timestamp offset to seek and the
+	// number of reads that carry the reader across the aimed boundary.
+	aims []c20Aim
+}
+
+type c20Aim struct {
+	off   int64
+	reads int
 }
 
 func (b *c20Builder) gap(r *rand.Rand, count int) int64 {
@@ -384,7 +392,7 @@ func c20LenPicker(r *rand.Rand, class int) func() int {
 // malformed > 0 selects a way to leave the property's domain.
 func c20GenFile(r *rand.Rand, startOff int64, sizeClass, malformed int) *c20Builder {
 	b := &c20Builder{cur: startOff, maxGap: 5_000_000_000}
-	if sizeClass >= 5 {
+	if sizeClass == 5 || sizeClass == 6 {
 		b.maxGap = 40_000_000
 	}
 	b.file.complete = true
@@ -415,6 +423,31 @@ func c20GenFile(r *rand.Rand, startOff int64, sizeClass, malformed int) *c20Buil
 		for i := 0; i < nseg && b.bytes < 300_000; i++ {
 			b.addJ(r, 1+r.IntN(30), pick())
 		}
+	case 6: // window-aligned: after seekTS the 1.6 MB window starts ±2 bytes around a line start,
+		// and a newline sits ±2 bytes around the refill bound (window start + maxEntrySize)
+		b.addJ(r, 1+r.IntN(20), 60+r.IntN(300))
+		for u, units := 0, 1+r.IntN(2); u < units; u++ {
+			d1 := r.IntN(5) - 2
+			d2 := r.IntN(5) - 2
+			xLen := 60 + r.IntN(140)
+			before := len(b.offs)
+			b.addJ(r, 1, xLen) // X starts at s; the window will start at s+d1
+			yLen := d1 + maxEntrySize + d2 - xLen - 1
+			b.addJ(r, 1, yLen) // Y's newline at s+d1+maxEntrySize+d2
+			pick := c20LenPicker(r, 2+r.IntN(3))
+			b.fill(r, bufferSize+d1-xLen-(yLen+1), pick) // the last filler newline at s+d1+bufferSize
+			b.aims = append(b.aims, c20Aim{off: b.offs[len(b.offs)-1], reads: len(b.offs) - before + 3})
+			b.addJ(r, 1+r.IntN(5), 80+r.IntN(2000))
+		}
+	case 7: // probe-aligned: the first probe (size/2) falls j bytes around the newline of a
+		// line of maxEntrySize-1 bytes followed by another one: both edges of the 32 KiB window
+		j := r.IntN(6) - 2
+		p := 60 + r.IntN(200)
+		q2 := p + 2*j - 2 + r.IntN(2)
+		b.addJ(r, 1, p)
+		b.addJ(r, 1, maxEntrySize-1)
+		b.addJ(r, 1, maxEntrySize-1)
+		b.addJ(r, 1, q2)
 	default: // large: more than one 1.6 MB window
 		total := bufferSize + r.IntN(bufferSize/2)
 		switch r.IntN(8) {
@@ -545,44 +578,51 @@ func c20Gen(r *rand.Rand, emit vutil.Emit) {
 		switch x := r.IntN(100); {
 		case x < 4:
 			class = 0
-		case x < 24:
+		case x < 22:
 			class = 1
-		case x < 42:
+		case x < 38:
 			class = 2
-		case x < 70:
+		case x < 64:
 			class = 3
-		case x < 97:
+		case x < 90:
 			class = 4
-		default:
+		case x < 93:
 			class = 5
+		case x < 95:
+			class = 6
+		default:
+			class = 7
 		}
 		malformed := 0
 		if r.IntN(7) == 0 {
 			malformed = 1 + r.IntN(6)
 		}
-		two := r.IntN(2) == 0
+		nfiles := []int{1, 1, 1, 2, 2, 2, 2, 3}[r.IntN(8)]
 		var bs []*c20Builder
-		if two {
-			c0 := class
-			if r.IntN(3) > 0 {
-				c0 = []int{0, 1, 1, 2, 3, 3, 4}[r.IntN(7)]
+		start := int64(0)
+		for i := 0; i < nfiles; i++ {
+			c := class
+			m := 0
+			if i < nfiles-1 {
+				// Older files: mostly small, sometimes empty.
+				if r.IntN(3) > 0 || class >= 5 {
+					c = []int{0, 1, 1, 2, 3, 3, 4}[r.IntN(7)]
+				}
+				if malformed != 0 && r.IntN(nfiles) == 0 {
+					m, malformed = malformed, 0
+				}
+			} else {
+				m = malformed
+				if nfiles > 1 && r.IntN(8) == 0 {
+					c = 0 // empty current file
+				}
 			}
-			m0 := 0
-			if malformed != 0 && r.IntN(2) == 0 {
-				m0, malformed = malformed, 0
-			}
-			rot := c20GenFile(r, 0, c0, m0)
-			start := rot.cur
-			if r.IntN(12) == 0 {
+			b := c20GenFile(r, start, c, m)
+			start = b.cur
+			if r.IntN(16) == 0 {
 				start = 0 // overlapping timestamps across the files
 			}
-			c1 := class
-			if c0 == 5 {
-				c1 = []int{0, 1, 3, 4}[r.IntN(4)]
-			}
-			bs = []*c20Builder{rot, c20GenFile(r, start, c1, malformed)}
-		} else {
-			bs = []*c20Builder{c20GenFile(r, 0, class, malformed)}
+			bs = append(bs, b)
 		}
 		files := make([]c20File, len(bs))
 		totalLines := 0
@@ -610,7 +650,7 @@ func c20Gen(r *rand.Rand, emit vutil.Emit) {
 			}
 		}
 		budget := 24
-		if class == 5 {
+		if class == 5 || class == 6 {
 			budget = 40
 		}
 		if r.IntN(5) < 3 {
@@ -627,13 +667,29 @@ func c20Gen(r *rand.Rand, emit vutil.Emit) {
 			}
 			for i, t := range c20Targets(r, allOffs, budget) {
 				emit("C20.seek", strconv.FormatInt(t, 10))
-				if i%7 == 3 && (class < 5 || i < 20) {
+				if i%7 == 3 && ((class != 5 && class != 6) || i < 20) {
 					emit("C20.next", vutil.Itoa(big))
 				} else {
 					emit("C20.next", vutil.Itoa(chunk()))
 				}
 				if r.IntN(6) == 0 {
 					emit("C20.start")
+				}
+				if r.IntN(12) == 0 {
+					// Touch one file underneath the reader, then go on with the reader.
+					ks := vutil.Itoa(r.IntN(len(bs)))
+					if r.IntN(2) == 0 {
+						emit("C20.fnext", ks, vutil.Itoa(1+r.IntN(3)))
+					} else {
+						emit("C20.fseek", ks, strconv.FormatInt(t, 10))
+					}
+					emit("C20.next", vutil.Itoa(1+r.IntN(4)))
+				}
+			}
+			for _, b := range bs {
+				for _, a := range b.aims {
+					emit("C20.seek", strconv.FormatInt(c20Base+a.off, 10))
+					emit("C20.next", vutil.Itoa(a.reads))
 				}
 			}
 		} else {
@@ -649,7 +705,7 @@ func c20Gen(r *rand.Rand, emit vutil.Emit) {
 				}
 				for i, t := range c20Targets(r, b.offs, budget) {
 					emit("C20.fseek", ks, strconv.FormatInt(t, 10))
-					if i%7 == 3 && (class < 5 || i < 20) {
+					if i%7 == 3 && ((class != 5 && class != 6) || i < 20) {
 						emit("C20.fnext", ks, vutil.Itoa(len(b.offs)+2))
 					} else {
 						emit("C20.fnext", ks, vutil.Itoa(chunk()))
@@ -657,6 +713,10 @@ func c20Gen(r *rand.Rand, emit vutil.Emit) {
 					if r.IntN(6) == 0 {
 						emit("C20.fstart", ks)
 					}
+				}
+				for _, a := range b.aims {
+					emit("C20.fseek", ks, strconv.FormatInt(c20Base+a.off, 10))
+					emit("C20.fnext", ks, vutil.Itoa(a.reads))
 				}
 			}
 		}
